@@ -2,8 +2,8 @@
    Part A: NeighMoving::_moving (no bound on the number of samples, sectors, or on nmini/nmaxi/nsmax).
    Part B: ball-tree k-nearest-neighbour query (no bound on points, dimension, leaf size, k). *)
 From Coq Require Import List ZArith QArith Qabs Bool Arith Lia Permutation Sorting.Sorted.
-From Gst Require Import lib.QAux C06.Model C06.Spec C06.Proofs C06.Proofs_select C06.Proofs_moving.
-From Gst Require Import C06.Knn C06.Proofs_knn C06.Proofs_heap C06.Proofs_query C06.Proofs_sort.
+From Gst Require Import lib.QAux C06.Model C06.Spec C06.Proofs C06.Proofs_select C06.Proofs_moving C06.Proofs_ball.
+From Gst Require Import C06.Knn C06.KnnE C06.Proofs_knn C06.Proofs_heap C06.Proofs_query C06.Proofs_sort C06.Proofs_sector.
 Import ListNotations.
 
 (* ---------------------------------------------------------------------------------------------- *)
@@ -21,6 +21,25 @@ Theorem C06_candidates : forall oracle p t (samples : list sample),
 Proof. intros. apply cand_loop_filter. Qed.
 Print Assumptions C06_candidates.
 
+(* samples as the Db holds them: a sample with an undefined coordinate or an undefined external drift is discarded
+   by ANeigh::_discardUndefined before anything else is looked at *)
+Theorem C06_admissible_x : forall p t x, admissible_x_b p t x = true <-> admissible_x p t x.
+Proof. exact admissible_x_b_spec. Qed.
+Print Assumptions C06_admissible_x.
+
+Theorem C06_candidates_x : forall oracle p t (xs : list xsample),
+  cand_loop_x oracle p t (enum xs) =
+  map (fun ix => mk_cand oracle p t (fst ix, x_total (snd ix))) (filter (fun ix => admissible_x_b p t (snd ix)) (enum xs)).
+Proof. intros. apply cand_loop_x_filter. Qed.
+Print Assumptions C06_candidates_x.
+
+(* ... so that, on the standard path, it behaves exactly like a masked sample: every theorem below about
+   [moving] / [moving_from] applies to [moving_x] through this equality *)
+Theorem C06_undefined_as_masked : forall oracle p t xs,
+  moving_x oracle p t xs = moving oracle p t (map x_embed xs).
+Proof. exact moving_x_embed. Qed.
+Print Assumptions C06_undefined_as_masked.
+
 (* sector rules: range, nesting of the exact rules, behaviour under a quarter turn *)
 Theorem C06_sector_range : forall oracle nsect dx dy,
   (1 <= nsect)%nat -> (forall a b, (oracle a b < nsect)%nat) -> (sector_define oracle nsect dx dy < nsect)%nat.
@@ -34,6 +53,18 @@ Theorem C06_sector_quarter_turn : forall dx dy,
   ~ (dx == 0 /\ dy == 0) -> sector4 (- dy) dx = ((sector4 dx dy + 1) mod 4)%nat.
 Proof. exact sector4_quarter_turn. Qed.
 Print Assumptions C06_sector_quarter_turn.
+
+(* the exact rules are the angular definition: sector s <-> the increment lies in the cone swept counter-clockwise
+   from direction 2 pi s / nsect (included) to direction 2 pi (s+1) / nsect (excluded); directions are given up to
+   a positive factor, the cone by the signs of two linear forms (no atan) *)
+Theorem C06_sector8_cone : forall dx dy s, ~ (dx == 0 /\ dy == 0) -> (s < 8)%nat ->
+  (sector8 dx dy = s <-> in_cone (dir8 s) (dir8 (S s)) (dx, dy)).
+Proof. exact sector8_cone. Qed.
+Print Assumptions C06_sector8_cone.
+Theorem C06_sector4_cone : forall dx dy s, ~ (dx == 0 /\ dy == 0) -> (s < 4)%nat ->
+  (sector4 dx dy = s <-> in_cone (dir4 s) (dir4 (S s)) (dx, dy)).
+Proof. exact sector4_cone. Qed.
+Print Assumptions C06_sector4_cone.
 
 (* ---------------------------------------------------------------------------------------------- *)
 (* A.2 ordering                                                                                     *)
@@ -134,6 +165,17 @@ Theorem C06_nmini : forall oracle p t samples,
 Proof. intros oracle p t samples H1 H2. exact (moving_code oracle p t samples H1 H2). Qed.
 Print Assumptions C06_nmini.
 
+Theorem C06_nmini_x : forall oracle p t xs,
+  (1 <= p_nsect p)%nat -> (forall dx dy, (oracle dx dy < p_nsect p)%nat) ->
+  (r_code (moving_x oracle p t xs) = 0%Z <->
+   (p_nmini p <= Z.of_nat (length (filter (fun ix => admissible_x_b p t (snd ix)) (enum xs))))%Z) /\
+  (r_code (moving_x oracle p t xs) <> 0%Z -> r_ranks (moving_x oracle p t xs) = []).
+Proof.
+  intros oracle p t xs H1 H2. rewrite moving_x_embed, <- n_admissible_x.
+  destruct (moving_code oracle p t (map x_embed xs) H1 H2) as [A [B _]]. split; assumption.
+Qed.
+Print Assumptions C06_nmini_x.
+
 (* _neighCompress: the returned ranks are the selected sample indices in increasing order *)
 Theorem C06_ranks : forall nech sel,
   StronglySorted lt (compress nech sel) /\ forall i, In i (compress nech sel) <-> (i < nech)%nat /\ In i sel.
@@ -188,36 +230,76 @@ Example C06_sector_nonvacuous :
 Proof. vm_compute. split; reflexivity. Qed.
 
 (* ---------------------------------------------------------------------------------------------- *)
-(* C. ball-tree path of _moving                                                                      *)
+(* C. ball-tree shortcut of _moving, as committed in 4a434731b                                            *)
 
-(* the ball-tree path is the standard path only in the degenerate situation where the eligible list is the
-   whole (unmasked) data set in index order *)
+(* the shortcut body alone ([moving_ball]: loop over the eligible list without the isActive test) is the standard
+   path in the degenerate situation where the list is the whole, unmasked data set in index order *)
 Theorem C06_ball_moving : forall oracle p t samples,
   (forall s, In s samples -> s_active s = true) ->
   moving_ball oracle p t samples (seq 0 (length samples)) = moving oracle p t samples.
 Proof. exact moving_ball_all. Qed.
 Print Assumptions C06_ball_moving.
 
-(* ... and the general statement "ball-tree search returns the neighbourhood of the definition" is false for
-   the model: cross-validation (target = sample 0), nmaxi = 2: the two Euclidean-nearest samples are 0 and 1;
-   0 is then excluded, so the search returns {1} whereas the definition gives {1, 2}.  Replayed on the
-   implementation this is finding ballsearch:xvalid. *)
+(* the committed code takes the shortcut only under [ball_premise] (no cross-validation, no sector allocation, no
+   extra checker, no rotation, equal coefficients, all space dimensions, 0 < nmaxi <= nech, nmini <= nmaxi) and
+   when none of the samples returned is masked or undefined ([ball_scan]).  Whenever it is taken, and the eligible
+   list is what Ball::getIndices delivers (C06_knn; ties excluded: nmaxi distinct samples, each strictly nearer
+   than every sample left out), the ranks are those of the standard search -- hence the neighbourhood of the
+   definition (C06_candidates_x, C06_moving, C06_nmini_x) -- exits included *)
+Theorem C06_ball_shortcut : forall oracle p t (xs : list xsample) (ell : list nat),
+  (1 <= p_nsect p)%nat ->
+  ball_premise true p (length xs) = true -> ball_scan xs ell = true ->
+  NoDup ell -> length ell = Z.to_nat (p_nmaxi p) -> (forall i, In i ell -> (i < length xs)%nat) ->
+  (forall i j, In i ell -> (j < length xs)%nat -> ~ In j ell ->
+     dist2 p t (x_total (nth i xs dummy_xsample)) < dist2 p t (x_total (nth j xs dummy_xsample))) ->
+  r_ranks (moving_fixed_x oracle true p t xs ell) = r_ranks (moving_x oracle p t xs).
+Proof. exact ball_shortcut_ranks. Qed.
+Print Assumptions C06_ball_shortcut.
+
+(* the geometric part of the premise is what makes the separation above a property of the Euclidean distance the
+   tree works with: without rotation, with equal coefficients and all the space dimensions, the distance of the
+   neighbourhood is the Euclidean distance up to a positive factor *)
+Theorem C06_ball_metric : forall p t,
+  p_rot p = false -> coeffs_constant p = true -> p_ndim p = p_nd p ->
+  (p_aniso p = true -> length (p_coeffs p) = p_nd p /\ ~ nthQ (p_coeffs p) 0 == 0) ->
+  exists k, 0 < k /\ forall s, dist2 p t s * k == eucl2 p t s.
+Proof. exact dist2_isotropic. Qed.
+Print Assumptions C06_ball_metric.
+
+(* in every other case the standard loop runs *)
+Theorem C06_ball_fallback : forall oracle useball p t xs ell,
+  ball_taken useball p xs ell = false -> moving_fixed_x oracle useball p t xs ell = moving_x oracle p t xs.
+Proof. exact ball_fallback. Qed.
+Print Assumptions C06_ball_fallback.
+
+(* former witness of finding ballsearch:xvalid (cross-validation, target = sample 0, nmaxi = 2): the shortcut body
+   would return {1}, the definition gives {1, 2}; the committed premise refuses the shortcut and the result is {1, 2} *)
 Definition ball_params : params :=
   {| p_nmini := 1; p_nmaxi := 2; p_nsect := 1; p_nsmax := -1234567; p_ndim := 2; p_radius := None;
      p_aniso := false; p_rot := false; p_nd := 2; p_coeffs := []; p_rotmat := [];
      p_xvalid := true; p_kfold := false; p_hascode := false; p_eps := 1 # 1000000000; p_checkers := [] |}.
 Definition ball_samples : list sample :=
   [ex_sample true 0 0 (Some 1); ex_sample true 1 0 (Some 1); ex_sample true 0 2 (Some 1); ex_sample true 3 3 (Some 1)].
-Theorem C06_ball_moving_refuted :
-  exists p t samples ellig,
-    ellig = map snd (knn_spec (fun a b => (knthQ a 0 - knthQ b 0) * (knthQ a 0 - knthQ b 0) + (knthQ a 1 - knthQ b 1) * (knthQ a 1 - knthQ b 1))
-                              (map s_coords samples) (Z.to_nat (p_nmaxi p)) (t_coords t)) /\
-    r_ranks (moving_ball no_oracle p t samples ellig) <> spec_moving no_oracle p t samples.
-Proof.
-  exists ball_params, ex_target, ball_samples, [0; 1]%nat. split; [vm_compute; reflexivity|].
-  vm_compute. discriminate.
-Qed.
-Print Assumptions C06_ball_moving_refuted.
+Definition x_of (s : sample) : xsample :=
+  {| x_active := s_active s; x_coords := map Some (s_coords s); x_fext := []; x_vars := s_vars s; x_code := s_code s |}.
+Example C06_ball_regression :
+  let xs := map x_of ball_samples in
+  r_ranks (moving_ball no_oracle ball_params ex_target ball_samples [0; 1]%nat) = [1]%nat /\
+  ball_taken true ball_params xs [0; 1]%nat = false /\
+  r_ranks (moving_fixed_x no_oracle true ball_params ex_target xs [0; 1]%nat) = [1; 2]%nat /\
+  spec_moving_x no_oracle ball_params ex_target xs = [1; 2]%nat.
+Proof. vm_compute. repeat split; reflexivity. Qed.
+
+(* the shortcut taken: same data without cross-validation, eligible list = the two nearest samples *)
+Example C06_ball_shortcut_nonvacuous :
+  let p := {| p_nmini := 1; p_nmaxi := 2; p_nsect := 1; p_nsmax := -1234567; p_ndim := 2; p_radius := Some (3 # 2);
+              p_aniso := false; p_rot := false; p_nd := 2; p_coeffs := []; p_rotmat := [];
+              p_xvalid := false; p_kfold := false; p_hascode := false; p_eps := 1 # 1000000000; p_checkers := [] |} in
+  let xs := map x_of ball_samples in
+  ball_taken true p xs [1; 0]%nat = true /\
+  r_ranks (moving_fixed_x no_oracle true p ex_target xs [1; 0]%nat) = [0; 1]%nat /\
+  r_ranks (moving_x no_oracle p ex_target xs) = [0; 1]%nat.
+Proof. vm_compute. repeat split; reflexivity. Qed.
 
 (* ---------------------------------------------------------------------------------------------- *)
 (* B. ball-tree k-nearest-neighbour query                                                            *)
@@ -318,3 +400,38 @@ Example C06_knn_sort_regression :
   exists res, knn_query manhattan knn_ex_data (btree_init manhattan 2 knn_ex_data 3) 7 [-2; -2] = Some res /\
               map fst res = [Some 0; Some 1; Some 2; Some 2; Some 3; Some 4; Some 6].
 Proof. eexists. vm_compute. split; reflexivity. Qed.
+
+(* undefined coordinate / external drift; the cone rule at the eight boundary directions *)
+Example C06_undefined_nonvacuous :
+  let X a c f := {| x_active := a; x_coords := c; x_fext := f; x_vars := [Some 1]; x_code := None |} in
+  let xs := [X true [Some 1; None] [Some 1]; X true [Some 0; Some 1] [Some 2]; X true [Some 2; Some 0] [None]; X true [Some 0; Some (-1)] [Some 0]] in
+  r_ranks (moving_x no_oracle ball_params ex_target xs) = [1; 3]%nat /\
+  map (admissible_x_b ball_params ex_target) xs = [false; true; false; true].
+Proof. vm_compute. split; reflexivity. Qed.
+
+(* ---------------------------------------------------------------------------------------------- *)
+(* B'. Euclidean instance: the decisions taken on squares are the comparisons of square roots                    *)
+From Coq Require Import Reals Qreals.
+From Gst Require Import C06.Proofs_sqrt.
+
+(* pruning test of query_depth_first: fmax(0, d(q,c) - radius) > largest *)
+Theorem C06_sqrt_prune : forall a r b : Q, (0 <= a)%Q -> (0 <= r)%Q -> (0 <= b)%Q ->
+  (bound_gt_top a r (Some b) = true <-> (Rmax 0 (sqrt (Q2R a) - sqrt (Q2R r)) > sqrt (Q2R b))%R).
+Proof. exact bound_gt_top_sqrt. Qed.
+Print Assumptions C06_sqrt_prune.
+Theorem C06_sqrt_diff : forall a r b : Q, (0 <= a)%Q -> (0 <= r)%Q -> (0 <= b)%Q ->
+  (sqrt_diff_gt a r b = true <-> (sqrt (Q2R a) - sqrt (Q2R r) > sqrt (Q2R b))%R).
+Proof. exact sqrt_diff_gt_sqrt. Qed.
+Print Assumptions C06_sqrt_diff.
+(* child order: min_dist(child 1) <= min_dist(child 2) *)
+Theorem C06_sqrt_child_order : forall a1 r1 a2 r2 : Q, (0 <= a1)%Q -> (0 <= r1)%Q -> (0 <= a2)%Q -> (0 <= r2)%Q ->
+  (bound_le a1 r1 a2 r2 = true <->
+   (Rmax 0 (sqrt (Q2R a1) - sqrt (Q2R r1)) <= Rmax 0 (sqrt (Q2R a2) - sqrt (Q2R r2)))%R).
+Proof. exact bound_le_sqrt. Qed.
+Print Assumptions C06_sqrt_child_order.
+
+Example C06_knn_euclid_nonvacuous :
+  exists res, knn_query_e knn_ex_data (btree_init_e 2 knn_ex_data 1) 4 [(-2)%Q; (-2)%Q] = Some res /\
+              map snd res = [2; 4; 0; 6]%nat /\ map fst res = [Some 0%Q; Some 1%Q; Some 2%Q; Some 4%Q] /\
+              sqrt_diff_gt 9 1 3 = true /\ sqrt_diff_gt 9 1 4 = false /\ bound_le 9 4 16 9 = true.
+Proof. eexists. vm_compute. repeat split; reflexivity. Qed.
